@@ -55,10 +55,30 @@ INFO = {
  'C10-d': ('C10', "`serde(skip)` on the height index of announced headers", "header announced, upgrade, then its block delivered", 'heartbeat-trap'),
  'C15-c': ('C15', "upgrade fallback counts coinbases against the 10,000 window", ">= 10,000 transactions, upgrade while the boundary block is unstable, recomputation", 'fee-percentiles-wrong'),
  'C15-d': ('C15', "post_upgrade drops the persisted percentile cache", "percentiles computed, stabilisation without a tip change (or a kept previous answer), upgrade, query", 'fee-percentiles-wrong'),
+ 'C01-c': ('C01', "request address kept in the caller's spelling instead of the canonical one", "a segwit address spelled in upper-case bech32 (valid per BIP-173)", 'utxo-missing'),
+ 'C01-d': ('C01', "OP_RETURN skip moved before enumerate() in insert_outputs (vout shifted)", "transaction [payment, OP_RETURN, payment], its block stabilises, then a query", 'utxo-extra'),
+ 'C02-c': ('C02', "tree flattening emits children in reverse order", "two branches tied on difficulty and length, an upgrade, then any query", 'blockchain-info-wrong-tip'),
+ 'C02-d': ('C02', "best (difficulty, length) tracked component-wise instead of lexicographically", "nested fork with an exact difficulty tie, or three siblings with a lighter-but-longer one", 'blockchain-info-wrong-tip'),
+ 'C04-c': ('C04', "cut computed along the best chain (`take(len + 1 - c)`)", "heavier-but-shorter best branch vs a longer lighter branch, c in a narrow window", 'wrong-cut-block'),
+ 'C04-d': ('C04', "stability count cast to u32 before the comparison", "a best-chain block strictly shallower than its competitor, any c >= 1", 'wrong-cut-block'),
+ 'C05-c': ('C05', "Ord for Utxo ignores the vout (copy/paste)", "one transaction paying an address two outputs of identical value, block still unstable", 'balance-differs-from-utxo-sum'),
+ 'C05-d': ('C05', "`serde(skip)` on the in-progress block's stats and delta", "ingestion paused, upgrade, query on an address that spent a stable UTXO in the ingested part", 'balance-differs-from-utxo-sum'),
+ 'C07-c': ('C07', "length-only main-chain twin loses the 'more blocks' tie-break", "fork with equal work, different block counts, shorter branch first", 'header-range-wrong-length'),
+ 'C07-d': ('C07', "main-chain height taken from the deepest cached tip depth", "heavier branch with fewer blocks than a lighter one; range up to the longer fork's height traps", 'unexpected-trap'),
+ 'C11-c': ('C11', "20-minute rule checked before the period-boundary test", "testnet4/regtest, candidate exactly at a multiple of 2016, more than 20 minutes after its parent", 'header-admission:*'),
+ 'C11-d': ('C11', "`abs_diff` instead of `saturating_sub` for the period timespan", "a full period whose last header is more than 3.5 days earlier than its first, then the retarget header", 'header-admission:*'),
+ 'C14-c': ('C14', "announced headers taken out of the stored partial response before it is complete", "Partial with non-empty next and >= 2 follow-ups", 'answered-while-gated'),
+ 'C14-d': ('C14', "`serde(skip)` on the announced headers", "headers more than 2 above the tip, upgrade, query before a new response", 'answered-while-gated'),
+ 'C16-c': ('C16', "early return in get_block_headers when the range is entirely stable leaves ins_total at 0", "stable height >= 1, non-zero rate and instruction count, range entirely below the stable height", 'wrong-amount-charged'),
+ 'C16-d': ('C16', "explicit all-zero fee table at init treated as 'no fees given'", "init on mainnet/testnet with fees: Some(all zero), then a charged call", 'wrong-amount-charged'),
+ 'C17-c': ('C17', "failed get_blockchain_info no longer erases the previous canister height", "a successful round, then a round where the call fails while a quorum of explorers moved on", 'status-mismatch'),
+ 'C17-d': ('C17', "canister contacted only when the target differs from the previous target", "a quorum round whose set_config fails (or the flag is flipped externally), then rounds with the same decision", 'set-config-mismatch'),
+ 'C19-c': ('C19', "set_config overwrites api_access with the other flag when api_access is omitted", "the two flags differ, a set_config/upgrade argument omitting api_access, then send_transaction", 'not-forwarded-unchanged'),
+ 'C19-d': ('C19', "request counter bumped after the internal call instead of before", "well-formed payload, block source rejects the internal call", 'forwarded-but-not-counted'),
  'C20-b': ('C20', "discarded fork cleaned only one level deep", "a discarded fork of at least two blocks", 'tx-out-leaked'),
 }
 confirm = {}
-for f in ['/var/tmp/confirm_batch1.log', '/var/tmp/confirm_batch2.log', '/var/tmp/confirm_batch3.log', '/var/tmp/confirm_batch4.log', '/var/tmp/confirm_batch5.log']:
+for f in ['/var/tmp/confirm_batch1.log', '/var/tmp/confirm_batch2.log', '/var/tmp/confirm_batch3.log', '/var/tmp/confirm_batch4.log', '/var/tmp/confirm_batch5.log', '/var/tmp/confirm_batch6.log', '/var/tmp/confirm_batch7.log', '/var/tmp/confirm_batch8.log']:
     if os.path.exists(f):
         for line in open(f):
             m = re.match(r'RESULT (\S+) (\S+) demo-filter=(\S+) with-patch:failed=(\d+),ok=(\d+) without-patch:failed=(\d+),ok=(\d+)', line)
